@@ -1,6 +1,7 @@
 import MazeVerif.Lemmas.WilsonStepProb
 import MazeVerif.Lemmas.WilsonRefine
 import MazeVerif.Lemmas.SpanningMask
+import MazeVerif.Lemmas.WilsonSupport
 import MazeVerif.Props.C01
 import MazeVerif.Props.C19Table33
 import MazeVerif.Props.C19Table24
@@ -21,7 +22,12 @@ model of C01 (`C19_machine_refines_nested`), so every completed run returns a sp
 (`C19_support_sub`); the executable test behind the tables is sound and complete (`C19_isSpanningMask_iff`), the table
 `allSpanningMasks` is exactly the set of spanning trees (`C19_table_exact`), every returned mask is a table entry
 (`C19_support_in_table`) and every other mask has probability 0 at all times (`C19_outside_table_zero`).
-`_partial`: uniformity on larger grids (Wilson's theorem in general) is not mechanised. -/
+Conversely (EVERY grid, `Lemmas/WilsonSupport.lean`): every spanning tree is returned by some run of the executable
+machine (`C19_support_all`) and from some number of draws on has positive probability (`C19_every_tree_positive`,
+`C19_every_tree_positive_eventually`); hence a mask has positive probability at some time iff it is a spanning tree
+(`C19_support_exact`, `C19_support_exact_tree`) — the qualitative half of uniformity.
+`_partial`: uniformity on larger grids (Wilson's theorem in general: all those positive limits are EQUAL) is not
+mechanised. -/
 namespace MZ.C19
 open MZ.WProb MZ.WStep
 
@@ -262,6 +268,85 @@ theorem C19_outside_table_zero {rows cols : Nat} (hr : 0 < rows) (hc : 0 < cols)
     exact absurd (he ▸ C19_support_in_table hr hc hrun) hT
   · exact h0.symm
 
+/-! ### support ⊇ spanning trees (EVERY grid): every spanning tree can be produced -/
+
+/-- for every spanning-tree mask `T` there is a draw list, each draw within its range, that takes the machine from
+    the start state of cell `(0,0)` to a finished state whose connection mask is exactly `T` -/
+private theorem tree_reached {rows cols : Nat} (hr : 0 < rows) (hc : 0 < cols) {T : Nat}
+    (hT : T ∈ allSpanningMasks rows cols) :
+    ∃ ds t, WProb.Reaches (wilson rows cols) (WSup.s00 cols) ds t ∧ t.edges = T := by
+  have hTm : isSpanningMask rows cols T = true := WRef.mem_allSpanningMasks.mp hT
+  obtain ⟨ds, t, hreach, hsub⟩ := WSup.exists_run_inside hr hc hTm
+  refine ⟨ds, t, hreach, ?_⟩
+  have hrun : run rows cols (0 :: 0 :: ds) ds.length = some (t, []) := by
+    have h1 : 0 < max (rows - 1) 1 := by omega
+    have h2 : 0 < max (cols - 1) 1 := by omega
+    simp only [run, h1, h2, and_self, if_true]
+    exact reaches_runFrom hreach _ (le_refl _)
+  have htm : isSpanningMask rows cols t.edges = true :=
+    WRef.mem_allSpanningMasks.mp (C19_support_in_table hr hc hrun)
+  exact WSup.mask_eq_of_sub htm hTm hsub
+
+/-- support ⊇ spanning trees, ALL grid sizes: every spanning tree of the grid (every entry of `allSpanningMasks`,
+    which by `C19_table_exact` is every mask `T < 2^(2*rows*cols)` decoding to a `SpanningTree`) is returned by some
+    run of the executable machine: two draws for the start cell, then a draw list, each draw within its range, on
+    which `WStep.run` returns exactly the mask `T` with no draw left over -/
+theorem C19_support_all {rows cols : Nat} (hr : 0 < rows) (hc : 0 < cols) {T : Nat}
+    (hT : T ∈ allSpanningMasks rows cols) :
+    ∃ a b ds s, run rows cols (a :: b :: ds) ds.length = some (s, []) ∧ s.edges = T := by
+  obtain ⟨ds, t, hreach, he⟩ := tree_reached hr hc hT
+  refine ⟨0, 0, ds, t, ?_, he⟩
+  have h1 : 0 < max (rows - 1) 1 := by omega
+  have h2 : 0 < max (cols - 1) 1 := by omega
+  simp only [run, h1, h2, and_self, if_true]
+  exact reaches_runFrom hreach _ (le_refl _)
+
+/-- the same in C01's terms: every connection mask over the `2*rows*cols` slots that decodes to a `SpanningTree` of
+    the grid is returned by some run of the executable machine -/
+theorem C19_support_all_tree {rows cols : Nat} (hr : 0 < rows) (hc : 0 < cols) {T : Nat}
+    (hlt : T < 2 ^ (2 * (rows * cols))) (hT : SpanningTree rows cols (edgesOfMask rows cols T)) :
+    ∃ a b ds s, run rows cols (a :: b :: ds) ds.length = some (s, []) ∧ s.edges = T :=
+  C19_support_all hr hc ((C19_table_exact hr hc).mpr ⟨hlt, hT⟩)
+
+/-- every spanning tree has positive probability from some number of draws on, on EVERY grid -/
+theorem C19_every_tree_positive_eventually {rows cols : Nat} (hr : 0 < rows) (hc : 0 < cols) {T : Nat}
+    (hT : T ∈ allSpanningMasks rows cols) : ∃ n0, ∀ n, n0 ≤ n → 0 < P rows cols n T := by
+  obtain ⟨ds, t, hreach, he⟩ := tree_reached hr hc hT
+  refine ⟨ds.length, fun n hn => ?_⟩
+  have hv : 0 < val (wilson rows cols) (edgesAre T) n (WSup.s00 cols) :=
+    WSup.reaches_val_pos _ _ hreach (by simp [edgesAre, he]) n hn
+  have hlen : (0 : Rat) < ((starts rows cols).length : Rat) := by
+    exact_mod_cast List.length_pos_of_ne_nil (starts_ne_nil rows cols)
+  have hx : (WSup.s00 cols, 1 / ((starts rows cols).length : Rat)) ∈ start rows cols := by
+    simp only [start, List.mem_map]
+    exact ⟨WSup.s00 cols, WSup.s00_mem_starts rows cols, rfl⟩
+  exact WSup.expect_pos_of_mem (start_weights_nonneg rows cols) (fun s => val_nonneg _ _ _ s) hx
+    (div_pos (by norm_num) hlen) hv
+
+/-- every spanning tree has positive probability at some time, on EVERY grid -/
+theorem C19_every_tree_positive {rows cols : Nat} (hr : 0 < rows) (hc : 0 < cols) {T : Nat}
+    (hT : T ∈ allSpanningMasks rows cols) : ∃ n, 0 < P rows cols n T := by
+  obtain ⟨n0, h⟩ := C19_every_tree_positive_eventually hr hc hT
+  exact ⟨n0, h n0 (le_refl _)⟩
+
+/-- the support of the generator is EXACTLY the set of spanning trees, on EVERY grid: a connection mask is returned
+    with positive probability at some time iff it is an entry of `allSpanningMasks` -/
+theorem C19_support_exact {rows cols : Nat} (hr : 0 < rows) (hc : 0 < cols) (T : Nat) :
+    (∃ n, 0 < P rows cols n T) ↔ T ∈ allSpanningMasks rows cols := by
+  constructor
+  · rintro ⟨n, hn⟩
+    by_contra hT
+    rw [C19_outside_table_zero hr hc hT n] at hn
+    exact lt_irrefl _ hn
+  · exact C19_every_tree_positive hr hc
+
+/-- the same in C01's terms: positive probability at some time iff the mask lies within the `2*rows*cols` connection
+    slots and decodes to a `SpanningTree` of the grid -/
+theorem C19_support_exact_tree {rows cols : Nat} (hr : 0 < rows) (hc : 0 < cols) (T : Nat) :
+    (∃ n, 0 < P rows cols n T) ↔
+      T < 2 ^ (2 * (rows * cols)) ∧ SpanningTree rows cols (edgesOfMask rows cols T) := by
+  rw [C19_support_exact hr hc, C19_table_exact hr hc]
+
 /-! ### non-vacuity -/
 
 example : (allSpanningMasks 2 2) = [19, 67, 81, 82] := by decide
@@ -289,5 +374,25 @@ example : 81 ∈ allSpanningMasks 2 2 :=
     (s := { vis := 15, edges := 81, path := [] }) (rest := []) (by decide)
 -- 3 = both vertical connections, nothing else: not a spanning tree, hence never returned
 example : P 2 2 50 3 = 0 := C19_outside_table_zero (by decide) (by decide) (by decide) 50
+
+-- support ⊇ trees: a grid outside the evaluated tables (3x4, comb tree: all 8 vertical connections + the top row)
+example : isSpanningMask 3 4 28927 = true := by decide
+example : ∃ a b ds s, run 3 4 (a :: b :: ds) ds.length = some (s, []) ∧ s.edges = 28927 :=
+  C19_support_all (by decide) (by decide) (WRef.mem_allSpanningMasks.mpr (by decide))
+example : ∃ a b ds s, run 2 2 (a :: b :: ds) ds.length = some (s, []) ∧ s.edges = 81 :=
+  C19_support_all_tree (by decide) (by decide) (by decide)
+    ((C19_table_exact (by decide) (by decide)).mp (by decide)).2
+-- the 1x1 grid: the only spanning tree is the empty mask, returned with no draw at all
+example : allSpanningMasks 1 1 = [0] := by decide
+example : run 1 1 [0, 0] 0 = some ({ vis := 1, edges := 0, path := [] }, []) := by decide
+example : ∃ n, 0 < P 3 4 n 28927 :=
+  C19_every_tree_positive (by decide) (by decide) (WRef.mem_allSpanningMasks.mpr (by decide))
+example : ∃ n0, ∀ n, n0 ≤ n → 0 < P 3 4 n 28927 :=
+  C19_every_tree_positive_eventually (by decide) (by decide) (WRef.mem_allSpanningMasks.mpr (by decide))
+-- both directions of the support characterisation are exercised: 81 is a tree, 3 is not
+example : ∃ n, 0 < P 2 2 n 81 := (C19_support_exact (by decide) (by decide) 81).mpr (by decide)
+example : ¬ ∃ n, 0 < P 2 2 n 3 := fun h => absurd ((C19_support_exact (by decide) (by decide) 3).mp h) (by decide)
+example : (∃ n, 0 < P 2 2 n 81) ↔ 81 < 2 ^ (2 * (2 * 2)) ∧ SpanningTree 2 2 (edgesOfMask 2 2 81) :=
+  C19_support_exact_tree (by decide) (by decide) 81
 
 end MZ.C19
